@@ -362,6 +362,7 @@ class Minor(object):
         ra = Angle(atan2(eta, xi), radians=True)
         dec = Angle(atan2(zeta, sqrt(xi * xi + eta * eta)), radians=True)
         r_sun = sqrt(xs * xs + ys * ys + zs * zs)
+        delta = sqrt(xi * xi + eta * eta + zeta * zeta)
         psi = acos((xi * xs + eta * ys + zeta * zs) / (r_sun * delta))
         psi = Angle(psi, radians=True)
         return ra, dec, psi
